@@ -72,7 +72,14 @@ class W(object):
     def __contains__(self, o): return 2
     __hash__ = object.__hash__
 VAL = {"m1": -1, "i0": 0, "i1": 1, "i2": 2, "f0": 0.0, "f1": 1.0, "T": True, "sa": "a", "sb": "b", "ba": b"a",
-       "N": None, "W": W(), "nan": float("nan"), "U": []}
+       "N": None, "W": W(), "nan": float("nan"), "U": [],
+       # the wide table of the "pair" family
+       "fNI": float("-inf"), "nB": -2**64, "fm": -1.5, "fz": -0.0, "Fa": False, "fh": 1.5, "iC": 2**30, "iD": 2**31, "iE": 2**53,
+       "fE": 2.0**53, "iF": 2**53 + 1, "iG": 2**62, "iH": 2**64, "fH": 2.0**64, "fX": 1e300, "fI": float("inf"),
+       "s_": "", "sab": "ab", "sab2": "".join(["a", "b"]), "saa": "aa", "sae": "a\xe9", "seu": "\u20ac",
+       "b_": b"", "bb": b"b", "bab": b"ab", "bab2": bytes([97, 98]), "baa": b"aa", "bh": b"\xe9", "bah": b"a\xe9",
+       "B_": bytearray(b""), "Ba": bytearray(b"a"), "Bab": bytearray(b"ab")}
+assert VAL["sab"] is not VAL["sab2"] and VAL["bab"] is not VAL["bab2"]
 def tokres(v):
     if v is True: return "True"
     if v is False: return "False"
@@ -183,6 +190,36 @@ def render_chain(s, name):
 
 
 # =============================================================================================
+# pairs: a op b over the wide value table
+
+P_INT = ["nB", "m1", "i0", "i1", "i2", "iC", "iD", "iE", "iF", "iG", "iH"]
+P_FLT = ["fNI", "fm", "fz", "f0", "f1", "fh", "fE", "fH", "fX", "fI", "nan"]
+P_STR = ["s_", "sa", "sb", "sab", "sab2", "saa", "sae", "seu"]
+P_BYT = ["b_", "ba", "bb", "bab", "bab2", "baa", "bh", "bah"]
+P_ALL = P_INT + ["T", "Fa"] + P_FLT + P_STR + P_BYT + ["B_", "Ba", "Bab", "N", "W"]
+P_DOM = {"o": P_ALL, "s": P_STR + ["N"], "y": P_BYT + ["N"], "I": P_INT, "d": P_FLT}
+P_DECL = {"o": "%s", "s": "str %s", "y": "bytes %s", "I": "%s: int", "d": "double %s"}
+P_TYPINGS = ["oo", "so", "os", "ss", "yo", "oy", "yy", "sy", "Io", "oI", "II", "do", "od", "dd", "Id", "dI"]
+
+
+def pair_shapes(tier, rng):
+    out = []
+    k = 0
+    for op in OPS[:6]:
+        for ty in P_TYPINGS:
+            k += 1
+            for ctx in (("val", "bool") if tier != "quick" else (("val", "bool")[k % 2],)):
+                out.append({"part": "pair", "op": op, "ty": ty, "ctx": ctx, "form": "name", "adom": P_DOM[ty[0]], "bdom": P_DOM[ty[1]]})
+    return out
+
+
+def render_pair(s, name):
+    e = "a %s b" % s["op"]
+    body = ("    return %s\n" % e) if s["ctx"] == "val" else ("    if %s:\n        return True\n    return False\n" % e)
+    return ("def %s(%s, %s):\n%s" % (name, P_DECL[s["ty"][0]] % "a", P_DECL[s["ty"][1]] % "b", body), "def %s(a, b):\n%s" % (name, body))
+
+
+# =============================================================================================
 # membership in literal containers
 
 def member_shapes(tier, rng):
@@ -203,7 +240,7 @@ def member_shapes(tier, rng):
                                     "xdom": XTY_DOM[xty], "mdoms": [mdom] * n})
     lits = [list(ms) for n in (1, 2, 3) for ms in itertools.product(MLIT, repeat=n)]
     combos = [(kind, neg, ms, xty) for kind in ("tuple", "list", "set", "dict") for neg in (False, True) for ms in lits for xty in "oid"]
-    pick = rng.sample(combos, 300 if tier == "quick" else 4000)
+    pick = rng.sample(combos, 200 if tier == "quick" else 4000)
     for k, (kind, neg, ms, xty) in enumerate(pick):
         out.append({"kind": kind, "neg": neg, "form": "lit", "xty": xty, "ctx": ("val", "bool")[k % 2],
                     "xdom": XTY_DOM[xty], "mdoms": [[m] for m in ms]})
